@@ -72,3 +72,27 @@ impl vstd::std_specs::convert::TryFromSpecImpl<Vec<u8>> for SerializedTlvStream 
           Some(es) => r is Ok && r->Ok_0.view_entries() == es,
       })
 //@ end
+
+/// what the length-prefixed entry point makes of a byte string (the clause of `try_from`, as a function)
+pub open spec fn prefixed_parse(v: Seq<u8>) -> Option<Seq<EntryAbs>> {
+    if v.len() == 0 { Some(Seq::<EntryAbs>::empty()) }
+    else if cs_dec(v) is None { None }
+    else { parse(v.skip((cs_dec(v)->0).1 as int)) }
+}
+//@ fn tlv::SerializedTlvStream::deserialize
+//@ returns r
+//@ implicit [C18,C06]
+//@ ensures#payload_is_the_decoding_of_exactly_the_hex_text_or_an_error [C18,C06,C13,C10]
+//    the onion payload the node sent: not a string / not hex / not a TLV stream => an error (the
+//    hook answers with an error, nothing panics); otherwise exactly the records of those bytes
+      match deserializer.string_spec() {
+          None => r is Err,
+          Some(text) => match crate::hex::hex_spec(text) {
+              None => r is Err,
+              Some(bytes) => match prefixed_parse(bytes) {
+                  None => r is Err,
+                  Some(es) => r is Ok && r->Ok_0.view_entries() == es,
+              },
+          },
+      }
+//@ end
